@@ -51,7 +51,8 @@ def const_defs() -> typing.List[space.TypeDef]:
             "KF64",
             "L5k",
             "float64 MAXV = 1.7976931348623157e308\nfloat64 TINY = 1e-320\nfloat64 MINSUB = 5e-324\nfloat64 SMALL = 1e-300\nfloat64 BIG = 1e300\nfloat64 THIRD = 1.0 / 3.0\n"
-            "float64 TENTH = 0.1\nfloat64 NEG = -2.5e-310\nfloat64 E = 2.718281828459045\nuint8 x\n@sealed\n",
+            "float64 TENTH = 0.1\nfloat64 NEG = -2.5e-310\nfloat64 E = 2.718281828459045\nfloat64 DMIN = 2.2250738585072014e-308\n"
+            "float64 SUBD = 1.2345678901234567e-310\nfloat64 MAX3 = 1.7976931348623157e308 / 3.0\nfloat64 LONGD = 0.1234567890123456789e-305\nuint8 x\n@sealed\n",
             True,
         )
     )
@@ -302,6 +303,9 @@ def _work(job: tuple) -> dict:
                     continue
                 parts = r.split()
                 rc = int(parts[1])
+                if rc == -99:
+                    bag.add({"kind": "write_beyond_buffer", "lang": c.lang}, {"type": d.body, "config": c.tag, "bufsize": bs, "max": mb, "line": r}, f"{c.tag} {d.name}: serialization into a buffer of {bs} bytes (advertised size {mb}) wrote behind the buffer (guard bytes overwritten)")
+                    continue
                 if bs >= mb:
                     if rc != 0:
                         bag.add({"kind": "sufficient_buffer_refused", "lang": c.lang, "rc": rc}, {"type": d.body, "config": c.tag, "bufsize": bs, "max": mb, "line": r}, f"{c.tag} {d.name}: buffer of {bs} >= advertised {mb} bytes refused rc={rc}")
